@@ -248,3 +248,458 @@ pub fn gen_read(seed: u64, id: usize) -> CaseOut {
 fn edges_len(dm: &taskchampion::DependencyMap, n: usize) -> usize {
     (0..n).map(|u| dm.dependencies(uuid_of(u)).count()).sum()
 }
+
+// ------------------------------------------------------------------------------------------
+// C20: expiration
+
+pub fn gen_expire(seed: u64, id: usize) -> CaseOut {
+    use crate::chain::{ChainState, Handle};
+    use taskchampion::server::Server;
+    let mut rng = Rng::new(seed ^ (id as u64).wrapping_mul(0xD1342543DE82EF95) ^ 0x20);
+    let now = Utc::now().timestamp();
+    let day = 86400i64;
+    let tsmax = DateTime::<Utc>::MAX_UTC.timestamp();
+    let tsmin = DateTime::<Utc>::MIN_UTC.timestamp();
+    let mods: Vec<Option<String>> = vec![
+        None,
+        Some("".into()),
+        Some("abc".into()),
+        Some("12x".into()),
+        Some((tsmax + 1).to_string()),
+        Some((tsmin - 1).to_string()),
+        Some("-99999999999999999".into()),
+        Some("-9223372036854775808".into()),
+        Some("99999999999999999".into()),
+        Some((now - 400 * day).to_string()),
+        Some("0".into()),
+        Some("-86400".into()),
+        Some((now + 400 * day).to_string()),
+        Some((now - 180 * day - 60).to_string()),
+        Some((now - 180 * day + 60).to_string()),
+        Some((now - 180 * day - day).to_string()),
+        Some((now - 180 * day + day).to_string()),
+        Some(now.to_string()),
+        Some(format!("+{}", now - 300 * day)),
+        Some(format!(" {}", now - 300 * day)),
+        Some(tsmin.to_string()),
+    ];
+    let statuses = [Some("deleted"), Some("deleted"), Some("deleted"), Some("pending"), Some("completed"), Some("recurring"), Some("Deleted"), Some("bogus"), None];
+    let ntasks = rng.range(2, 6);
+    let mut maps: Vec<BTreeMap<String, String>> = vec![];
+    let mut ops = vec![];
+    for u in 0..ntasks {
+        ops.push(Operation::Create { uuid: uuid_of(u) });
+        let mut m = BTreeMap::new();
+        if let Some(s) = statuses[rng.below(statuses.len())] {
+            m.insert("status".to_string(), s.to_string());
+        }
+        if let Some(md) = &mods[rng.below(mods.len())] {
+            m.insert("modified".to_string(), md.clone());
+        }
+        if rng.chance(50) {
+            m.insert("description".to_string(), "d".to_string());
+        }
+        for (k, v) in &m {
+            ops.push(Operation::Update { uuid: uuid_of(u), property: k.clone(), value: Some(v.clone()), old_value: None, timestamp: Utc::now() });
+        }
+        maps.push(m);
+    }
+    let mut problems: Vec<String> = vec![];
+    let chain = ChainState::new(2);
+    let mut a = Replica::new(InMemoryStorage::new());
+    let mut b_ = Replica::new(InMemoryStorage::new());
+    let mut sa: Box<dyn Server> = Box::new(Handle { id: 0, st: chain.clone() });
+    let mut sb: Box<dyn Server> = Box::new(Handle { id: 1, st: chain });
+    block_on(a.commit_operations(ops)).expect("commit");
+    block_on(a.sync(&mut sa, false)).expect("sync a");
+    block_on(b_.sync(&mut sb, false)).expect("sync b");
+    // B edits some tasks concurrently with the expiry on A
+    let mut bops = vec![];
+    let mut edited = vec![];
+    for u in 0..ntasks {
+        if rng.chance(50) {
+            bops.push(Operation::Update { uuid: uuid_of(u), property: "description".into(), value: Some("edited elsewhere".into()),
+                                          old_value: maps[u].get("description").cloned(), timestamp: Utc::now() });
+            edited.push(u);
+        }
+    }
+    if !bops.is_empty() {
+        block_on(b_.commit_operations(bops)).expect("commit b");
+    }
+    block_on(a.expire_tasks()).expect("expire");
+    let after: Vec<usize> = {
+        let mut v: Vec<usize> = block_on(a.all_task_uuids()).unwrap().iter().map(|u| uuid_index(*u, 64).unwrap()).collect();
+        v.sort();
+        v
+    };
+    // the property's own wording, evaluated directly: deleted, readable modification time, more
+    // than 180 days ago
+    let expect: Vec<usize> = (0..ntasks)
+        .filter(|u| {
+            let m = &maps[*u];
+            let goes = m.get("status").map(|s| s == "deleted").unwrap_or(false)
+                && m.get("modified").and_then(|x| x.parse::<i64>().ok())
+                    .and_then(|z| if z >= tsmin && z <= tsmax { Some(z) } else { None })
+                    .map(|z| z < now - 180 * day)
+                    .unwrap_or(false);
+            !goes
+        })
+        .collect();
+    let near0 = maps.iter().any(|m| m.get("modified").and_then(|x| x.trim().parse::<i64>().ok()).map(|z| z.checked_sub(now - 180 * day).map(|d| d.unsigned_abs() < 5).unwrap_or(false)).unwrap_or(false));
+    if expect != after && !near0 {
+        problems.push(format!("expire_tasks kept {:?}; exactly the tasks {:?} should remain (tasks: {:?})", after, expect, maps));
+    }
+    // content of the survivors is untouched
+    for (u, td) in block_on(a.all_task_data()).unwrap() {
+        let i = uuid_index(u, 64).unwrap();
+        let got: BTreeMap<String, String> = td.iter().map(|(k, v)| (k.clone(), v.clone())).collect();
+        if got != maps[i] {
+            problems.push(format!("expire_tasks changed the content of a task it kept: {:?} -> {:?}", maps[i], got));
+        }
+    }
+    // the purge synchronises, in either order, and the edit does not bring a task back
+    let b_first = rng.chance(50);
+    if b_first {
+        block_on(b_.sync(&mut sb, false)).expect("sync b");
+        block_on(a.sync(&mut sa, false)).expect("sync a");
+        block_on(b_.sync(&mut sb, false)).expect("sync b");
+    } else {
+        block_on(a.sync(&mut sa, false)).expect("sync a");
+        block_on(b_.sync(&mut sb, false)).expect("sync b");
+        block_on(a.sync(&mut sa, false)).expect("sync a");
+    }
+    for (name, r) in [("A", &mut a), ("B", &mut b_)] {
+        let mut v: Vec<usize> = block_on(r.all_task_uuids()).unwrap().iter().map(|u| uuid_index(*u, 64).unwrap()).collect();
+        v.sort();
+        if v != after {
+            problems.push(format!("after syncing (B first: {b_first}) replica {name} holds tasks {:?}; after the expiry the tasks were {:?} (edited elsewhere: {:?})", v, after, edited));
+        }
+    }
+    let near = maps.iter().any(|m| m.get("modified").and_then(|x| x.trim().parse::<i64>().ok()).map(|z| z.checked_sub(now - 180 * day).map(|d| d.unsigned_abs() < 5).unwrap_or(false)).unwrap_or(false));
+    let tasks_lit = list(maps.iter().enumerate().map(|(u, m)| pair(n(u as u64), list(m.iter().map(|(k, v)| pair(sv(k), sv(v))).collect()))).collect());
+    let expired = ntasks - after.len();
+    let coq = if near { Value::Null } else {
+        ctor("Build_ecase", vec![z(tsmin as i128), z(tsmax as i128), z(now as i128), tasks_lit, list(after.iter().map(|u| n(*u as u64)).collect())])
+    };
+    let ok = problems.is_empty();
+    CaseOut {
+        coq,
+        script: json!({"family": "task-expire", "seed": seed, "id": id, "tasks": maps, "edited_on_other_replica": edited, "other_replica_syncs_first": b_first}),
+        oracle: json!({"ok": ok, "problems": problems, "survivors": after}),
+        features: json!({"tasks": ntasks, "expired": expired, "concurrent_edits": edited.len(),
+                         "deleted_status": maps.iter().filter(|m| m.get("status").map(|s| s == "deleted").unwrap_or(false)).count()}),
+    }
+}
+
+// ------------------------------------------------------------------------------------------
+// C19: mutator sequences
+
+fn ostr(x: Option<&str>) -> Value {
+    opt(x.map(sv))
+}
+
+pub fn gen_mut(seed: u64, id: usize) -> CaseOut {
+    use taskchampion::Annotation;
+    let mut rng = Rng::new(seed ^ (id as u64).wrapping_mul(0xBF58476D1CE4E5B9) ^ 0x19);
+    let mut rep = Replica::new(InMemoryStorage::new());
+    let u = uuid_of(0);
+    // a prior stored state
+    let init_keys = ["status", "description", "end", "start", "modified", "tag_ok", "project", "annotation_100", "priority"];
+    let init_vals = ["pending", "completed", "x", "", "1600000000", "H"];
+    let mut init: BTreeMap<String, String> = BTreeMap::new();
+    let mut ops0 = vec![Operation::Create { uuid: u }];
+    for k in init_keys {
+        if rng.chance(35) {
+            let v = init_vals[rng.below(init_vals.len())].to_string();
+            ops0.push(Operation::Update { uuid: u, property: k.to_string(), value: Some(v.clone()), old_value: None, timestamp: Utc::now() });
+            init.insert(k.to_string(), v);
+        }
+    }
+    block_on(rep.commit_operations(ops0)).expect("commit");
+    let mut task: Task = block_on(rep.get_task(u)).unwrap().unwrap();
+    let t_before = Utc::now().timestamp();
+    let mut ops = taskchampion::Operations::new();
+    let mut steps = vec![];
+    let mut problems = vec![];
+    let far = [1_500_000_000i64, 2_000_000_000, 0, -5, 1_234_567_890];
+    let nsteps = rng.range(1, 8);
+    let mut script = vec![];
+    for _ in 0..nsteps {
+        let ts = far[rng.below(far.len())];
+        let dt = DateTime::<Utc>::from_timestamp(ts, 0).unwrap();
+        let (lit, res, desc): (Value, Result<(), taskchampion::Error>, String) = match rng.below(16) {
+            0 | 1 => {
+                let (st, l) = match rng.below(5) {
+                    0 => (Status::Pending, c0("StPending")),
+                    1 => (Status::Completed, c0("StCompleted")),
+                    2 => (Status::Deleted, c0("StDeleted")),
+                    3 => (Status::Recurring, c0("StRecurring")),
+                    _ => (Status::Unknown("later".into()), ctor("StUnknown", vec![sv("later")])),
+                };
+                (ctor("MSetStatus", vec![l]), task.set_status(st.clone(), &mut ops), format!("set_status({st:?})"))
+            }
+            2 => {
+                let d = ["new text", "", "x"][rng.below(3)];
+                (ctor("MSetValue", vec![sv("description"), some(sv(d))]), task.set_description(d.to_string(), &mut ops), format!("set_description({d:?})"))
+            }
+            3 => {
+                let props = ["modified", "project", "due", "description", "tag_raw", "end"];
+                let p = props[rng.below(props.len())];
+                let v = if rng.chance(30) { None } else { Some(["v", "", "1700000000"][rng.below(3)]) };
+                (ctor("MSetValue", vec![sv(p), ostr(v)]), task.set_value(p, v.map(|s| s.to_string()), &mut ops), format!("set_value({p:?}, {v:?})"))
+            }
+            4 => {
+                let some_ts = rng.chance(70);
+                let which = rng.below(4);
+                let name = ["entry", "wait", "due", "modified"][which];
+                let arg = if some_ts { Some(dt) } else { None };
+                let r = match which {
+                    0 => task.set_entry(arg, &mut ops),
+                    1 => task.set_wait(arg, &mut ops),
+                    2 => task.set_due(arg, &mut ops),
+                    _ => task.set_modified(dt, &mut ops),
+                };
+                let shown = if some_ts || which == 3 { Some(ts.to_string()) } else { None };
+                (ctor("MSetValue", vec![sv(name), ostr(shown.as_deref())]), r, format!("set_{name}({shown:?})"))
+            }
+            5 => (c0("MStart"), task.start(&mut ops), "start".into()),
+            6 => (c0("MStop"), task.stop(&mut ops), "stop".into()),
+            7 => (ctor("MSetStatus", vec![c0("StCompleted")]), task.done(&mut ops), "done".into()),
+            8 | 9 => {
+                let names = ["ok", "next", "\u{fc}n\u{ef}", "WAITING", "PENDING", ":colon"];
+                let nme = names[rng.below(names.len())];
+                let tag: Tag = nme.parse().unwrap();
+                if rng.chance(60) {
+                    (ctor("MAddTag", vec![sv(nme)]), task.add_tag(&tag, &mut ops), format!("add_tag({nme})"))
+                } else {
+                    (ctor("MRemoveTag", vec![sv(nme)]), task.remove_tag(&tag, &mut ops), format!("remove_tag({nme})"))
+                }
+            }
+            10 => {
+                if rng.chance(60) {
+                    (ctor("MAddAnnotation", vec![sv(&ts.to_string()), sv("note \u{1F600}")]),
+                     task.add_annotation(Annotation { entry: dt, description: "note \u{1F600}".into() }, &mut ops), format!("add_annotation({ts})"))
+                } else {
+                    (ctor("MRemoveAnnotation", vec![sv(&ts.to_string())]), task.remove_annotation(dt, &mut ops), format!("remove_annotation({ts})"))
+                }
+            }
+            11 | 12 => {
+                let keys = ["githubid", "project", "tag_x", "status", "dep_x", "uda.k", "annotation_1", "Description", "due"];
+                let k = keys[rng.below(keys.len())];
+                if rng.chance(60) {
+                    (ctor("MSetUda", vec![sv(k), sv("val")]), task.set_user_defined_attribute(k, "val", &mut ops), format!("set_user_defined_attribute({k})"))
+                } else {
+                    (ctor("MRemoveUda", vec![sv(k)]), task.remove_user_defined_attribute(k, &mut ops), format!("remove_user_defined_attribute({k})"))
+                }
+            }
+            13 | 14 => {
+                let d = uuid_of(rng.range(1, 3));
+                if rng.chance(60) {
+                    (ctor("MAddDep", vec![sv(&d.to_string())]), task.add_dependency(d, &mut ops), format!("add_dependency({d})"))
+                } else {
+                    (ctor("MRemoveDep", vec![sv(&d.to_string())]), task.remove_dependency(d, &mut ops), format!("remove_dependency({d})"))
+                }
+            }
+            _ => {
+                let p = ["priority"][0];
+                (ctor("MSetValue", vec![sv(p), some(sv("L"))]), task.set_priority("L".into(), &mut ops), "set_priority(L)".into())
+            }
+        };
+        script.push(json!(desc));
+        steps.push(pair(lit, b(res.is_ok())));
+    }
+    let t_after = Utc::now().timestamp();
+    // the wall clock as the code prints it is canonicalised to NOW
+    let canon = |s: &str| -> String {
+        match s.parse::<i64>() {
+            Ok(z) if z >= t_before && z <= t_after => "NOW".to_string(),
+            _ => s.to_string(),
+        }
+    };
+    let held: BTreeMap<String, String> = task.clone().into_task_data().iter().map(|(k, v)| (k.clone(), canon(v))).collect();
+    let mut log = vec![];
+    for o in ops.iter() {
+        match o {
+            Operation::Update { uuid, property, old_value, value, .. } => {
+                if *uuid != u {
+                    problems.push("an operation for another task was recorded".to_string());
+                }
+                log.push(json!({"p": [{"p": [sv(property), ostr(old_value.as_deref().map(canon).as_deref())]}, ostr(value.as_deref().map(canon).as_deref())]}));
+            }
+            Operation::UndoPoint => {}
+            other => problems.push(format!("unexpected operation recorded: {other:?}")),
+        }
+    }
+    // committing what was recorded must make the stored task equal the held one
+    block_on(rep.commit_operations(ops)).expect("commit recorded");
+    let stored: BTreeMap<String, String> = block_on(rep.get_task_data(u)).unwrap().map(|td| td.iter().map(|(k, v)| (k.clone(), canon(v))).collect()).unwrap_or_default();
+    if stored != held {
+        problems.push(format!("after committing the recorded operations the stored task is {:?}, the held task is {:?}", stored, held));
+    }
+    let coq = ctor(
+        "Build_mcase",
+        vec![
+            sv("NOW"),
+            list(init.iter().map(|(k, v)| pair(sv(k), sv(v))).collect()),
+            list(steps),
+            list(held.iter().map(|(k, v)| pair(sv(k), sv(v))).collect()),
+            list(log),
+        ],
+    );
+    let ok = problems.is_empty();
+    CaseOut {
+        coq,
+        script: json!({"family": "task-mut", "seed": seed, "id": id, "initial": init, "calls": script}),
+        oracle: json!({"ok": ok, "problems": problems}),
+        features: json!({"calls": nsteps, "initial_properties": init.len()}),
+    }
+}
+
+// ------------------------------------------------------------------------------------------
+// C19: the dependency map and the synthetic tags follow commits
+
+pub fn gen_depmap(seed: u64, id: usize) -> CaseOut {
+    use taskchampion::TaskData;
+    let mut rng = Rng::new(seed ^ (id as u64).wrapping_mul(0x94D049BB133111EB) ^ 0xd9);
+    let now = Utc::now().timestamp();
+    let mut rep = Replica::new(InMemoryStorage::new());
+    let nt = 3;
+    let mut ops = taskchampion::Operations::new();
+    for u in 0..nt {
+        let mut td = TaskData::create(uuid_of(u), &mut ops);
+        td.update("status", Some("pending".into()), &mut ops);
+        for d in 0..nt {
+            if d != u && rng.chance(45) {
+                td.update(format!("dep_{}", uuid_of(d)), Some("".into()), &mut ops);
+            }
+        }
+    }
+    block_on(rep.commit_operations(ops)).expect("commit");
+    let mut script = vec![];
+    // load a task: this computes and caches the dependency map
+    let _ = block_on(rep.get_task(uuid_of(0))).unwrap();
+    let k = rng.range(1, 3);
+    for _ in 0..k {
+        let u = rng.below(nt);
+        let mut ops = taskchampion::Operations::new();
+        match rng.below(6) {
+            0 => {
+                if let Some(mut t) = block_on(rep.get_task(uuid_of(u))).unwrap() {
+                    t.done(&mut ops).unwrap();
+                    script.push(json!(format!("task {u}: done")));
+                }
+            }
+            1 | 2 => {
+                if let Some(mut td) = block_on(rep.get_task_data(uuid_of(u))).unwrap() {
+                    td.delete(&mut ops);
+                    script.push(json!(format!("task {u}: TaskData::delete")));
+                }
+            }
+            3 => {
+                if let Some(mut td) = block_on(rep.get_task_data(uuid_of(u))).unwrap() {
+                    td.update("description", Some("edited".into()), &mut ops);
+                    script.push(json!(format!("task {u}: description edited")));
+                }
+            }
+            4 => {
+                if let Some(mut t) = block_on(rep.get_task(uuid_of(u))).unwrap() {
+                    let d = uuid_of((u + 1) % nt);
+                    t.add_dependency(d, &mut ops).unwrap();
+                    script.push(json!(format!("task {u}: add_dependency({})", (u + 1) % nt)));
+                }
+            }
+            _ => {
+                if let Some(mut t) = block_on(rep.get_task(uuid_of(u))).unwrap() {
+                    let d = uuid_of((u + 2) % nt);
+                    t.remove_dependency(d, &mut ops).unwrap();
+                    script.push(json!(format!("task {u}: remove_dependency({})", (u + 2) % nt)));
+                }
+            }
+        }
+        if !ops.is_empty() {
+            block_on(rep.commit_operations(ops)).expect("commit");
+        }
+        if rng.chance(30) {
+            let _ = block_on(rep.get_task(uuid_of(rng.below(nt))));
+        }
+    }
+    // what the replica now reports without being forced to recompute
+    let mut problems = vec![];
+    let dm = block_on(rep.dependency_map(false)).unwrap();
+    let mut maps: Vec<Option<BTreeMap<String, String>>> = vec![];
+    let mut views = vec![];
+    let mut edges = vec![];
+    for u in 0..nt {
+        for d in dm.dependencies(uuid_of(u)) {
+            edges.push(pair(n(u as u64), n(uuid_index(d, 64).unwrap_or(99) as u64)));
+        }
+        match block_on(rep.get_task(uuid_of(u))).unwrap() {
+            Some(t) => {
+                let m: BTreeMap<String, String> = t.clone().into_task_data().iter().map(|(k, v)| (k.clone(), v.clone())).collect();
+                let near = m.values().any(|v| v.parse::<i64>().map(|z| (z - now).abs() < 5).unwrap_or(false));
+                let v = read_task(&t, &mut problems);
+                // start/end/modified written by the code hold the current time: is_waiting is unaffected
+                let _ = near;
+                views.push(pair(n(u as u64), opt(v)));
+                maps.push(Some(m));
+            }
+            None => maps.push(None),
+        }
+    }
+    let ws: Vec<Option<usize>> = {
+        let w = block_on(rep.working_set()).unwrap();
+        (0..=w.largest_index()).map(|i| w.by_index(i).map(|u| uuid_index(u, 64).unwrap())).collect()
+    };
+    // the property's wording evaluated directly: edges = working-set tasks' parsable dep_ keys
+    // whose target is stored with status pending
+    let mut want: Vec<(usize, usize)> = vec![];
+    for x in ws.iter().skip(1).flatten() {
+        if let Some(Some(m)) = maps.get(*x) {
+            for k in m.keys() {
+                if let Some(d) = k.strip_prefix("dep_").and_then(|d| taskchampion::Uuid::parse_str(d).ok()).and_then(|d| uuid_index(d, 64)) {
+                    if maps.get(d).and_then(|m| m.as_ref()).and_then(|m| m.get("status")).map(|s| s == "pending").unwrap_or(false) {
+                        want.push((*x, d));
+                    }
+                }
+            }
+        }
+    }
+    let mut got: Vec<(usize, usize)> = vec![];
+    for u in 0..nt {
+        for d in dm.dependencies(uuid_of(u)) {
+            got.push((u, uuid_index(d, 64).unwrap_or(99)));
+        }
+    }
+    want.sort();
+    got.sort();
+    if want != got {
+        problems.push(format!("the dependency map reported after the commits has edges {:?}; the stored tasks imply {:?} (steps: {:?})", got, want, script));
+    }
+    let mut ptab = vec![];
+    for i in 0..nt {
+        ptab.push(pair(sv(&uuid_of(i).to_string()), n(i as u64)));
+    }
+    let tasks_lit = list(
+        maps.iter().enumerate().filter_map(|(u, m)| m.as_ref().map(|m| pair(n(u as u64), list(m.iter().map(|(k, v)| pair(sv(k), sv(v))).collect())))).collect(),
+    );
+    let coq = ctor(
+        "Build_tcase",
+        vec![
+            z(DateTime::<Utc>::MIN_UTC.timestamp() as i128),
+            z(DateTime::<Utc>::MAX_UTC.timestamp() as i128),
+            z(now as i128 + 10),
+            list(ptab),
+            tasks_lit,
+            list(ws.iter().map(|x| opt(x.map(|u| n(u as u64)))).collect()),
+            list(edges.clone()),
+            list(views),
+        ],
+    );
+    let ok = problems.is_empty();
+    CaseOut {
+        coq,
+        script: json!({"family": "task-depmap", "seed": seed, "id": id, "steps": script}),
+        oracle: json!({"ok": ok, "problems": problems}),
+        features: json!({"steps": k, "edges": edges.len(), "purged": maps.iter().filter(|m| m.is_none()).count()}),
+    }
+}
